@@ -502,10 +502,13 @@ class RefGen:
         # documented: trailing fields with defaults may be absent from the input
         fn = f"_ref_nt{self.n}_{t.__name__}"
         self.n += 1
-        lines = [f"def {fn}(value):", "    fields = []", "    try:"]
+        # (only the ABSENCE of a position ends the scan: an IndexError raised while converting a present member is that
+        # member's failure, not an absent field)
+        lines = [f"def {fn}(value):", "    fields = []"]
         for f, i in zip(fields, idx):
-            lines.append(f"        fields.append({self.dec(hints.get(f, typing.Any), f'value[{i}]')})")
-        lines += ["    except IndexError:", "        pass", f"    return {name}(*fields)"]
+            lines += ["    try:", f"        item = value[{i}]", "    except IndexError:", f"        return {name}(*fields)",
+                      f"    fields.append({self.dec(hints.get(f, typing.Any), 'item')})"]
+        lines += [f"    return {name}(*fields)"]
         self.defs.append("\n".join(lines))
         return f"{fn}({x})"
 
